@@ -4,7 +4,8 @@
    A table has a HED column (free annotation text) and a categorical column mapped by the sidecar, and
    optionally an onset column.  Cells are abstract:
      HED column:  a, b (two valid tags)  bad (a cell that fails a per-tag rule)  na
-                  off (an Offset marker whose scope was never opened)  dly (a valid Delay group)
+                  off (an Offset marker)  dly (a valid Delay group)  on (an Onset marker of the same definition)
+                  doff (an Offset marker shifted by Delay: it takes effect DelayTicks after its row's onset)
      cat column:  a, b, bad (categories whose sidecar entry is tag a / tag b / a failing tag)  na
                   unk (a key the sidecar does not list)
    Issues(t) is the multiset of <<code, file row, column>> the file validator must report; file rows are
@@ -14,7 +15,7 @@
 *)
 EXTENDS Integers, Sequences, FiniteSets, TLC
 CONSTANTS MaxRows
-HCells == {"a", "b", "bad", "na", "off", "dly"}
+HCells == {"a", "b", "bad", "na", "off", "dly", "on", "doff"}    \* on: Onset of the definition; doff: its Offset shifted by Delay
 CCells == {"a", "b", "bad", "na", "unk"}
 VARIABLES rows,      \* Seq([onset, h, c])   onset: 0 = n/a, otherwise a distinct positive time
           hasOnset   \* the file has an onset column at all
@@ -35,11 +36,21 @@ CellErr(t, i) == (IF t[i].h = "bad" THEN {<<"TAG_INVALID", FileRow(i), "HED">>} 
 Clean(t, i) == CellErr(t, i) = {}
 \* a row has a time iff the file has an onset column and the row's onset is numeric
 Timed(t, i) == hasOnset /\ t[i].onset # 0
+\* effective time of the marker of row i, in ticks: onsets are multiples of 10, a delayed marker lands 15 ticks later
+EffTime(t, i) == t[i].onset * 10 + (IF t[i].h = "doff" THEN 15 ELSE 0)
+\* rows whose temporal marker takes part in the time line: timed and free of cell errors
+InLine(t, i) == Timed(t, i) /\ Clean(t, i)
+OnsetTimes(t) == {EffTime(t, i) : i \in {j \in 1..Len(t) : InLine(t, j) /\ t[j].h = "on"}}
+OffsetTimes(t) == {EffTime(t, i) : i \in {j \in 1..Len(t) : InLine(t, j) /\ t[j].h \in {"off", "doff"}}}
+\* the scope is open just before time x: some Onset earlier with no Offset in between
+Open(t, x) == \E s \in OnsetTimes(t) : s < x /\ ~\E u \in OffsetTimes(t) : s < u /\ u < x
 RowErr(t, i) == IF ~Clean(t, i) THEN {}
                 ELSE (IF t[i].h \in {"a", "b"} /\ t[i].c = t[i].h THEN {<<"TAG_EXPRESSION_REPEATED", FileRow(i), "">>} ELSE {})
-                     \cup (IF t[i].h = "off" THEN {<<"TEMPORAL_TAG_ERROR", FileRow(i), "">>} ELSE {})
-                     \* temporal tags (here: a Delay / Duration group) need a time
-                     \cup (IF t[i].h = "dly" /\ ~Timed(t, i) THEN {<<"TEMPORAL_TAG_ERROR", FileRow(i), "">>} ELSE {})
+                     \* an Offset is unmatched exactly when no Onset is open at its effective time
+                     \cup (IF t[i].h \in {"off", "doff"} /\ Timed(t, i) /\ ~Open(t, EffTime(t, i))
+                           THEN {<<"TEMPORAL_TAG_ERROR", FileRow(i), "">>} ELSE {})
+                     \* temporal tags need a time
+                     \cup (IF t[i].h \in {"off", "doff", "on", "dly"} /\ ~Timed(t, i) THEN {<<"TEMPORAL_TAG_ERROR", FileRow(i), "">>} ELSE {})
 Structure(t, i) == IF t[i].c = "unk" THEN {<<"SIDECAR_KEY_MISSING", FileRow(i), "cat">>} ELSE {}
 Errors(t) == UNION {CellErr(t, i) \cup RowErr(t, i) : i \in 1..Len(t)}
 Warnings(t) == UNION {Structure(t, i) : i \in 1..Len(t)}
